@@ -504,7 +504,11 @@ fn gen_ordering(t: &mut Tape) -> Option<Ordering> {
     Some(out)
 }
 
-const OPTS: [&[&str]; 25] = [
+const OPTS: [&[&str]; 29] = [
+    &["-b", "2"],
+    &["-b", "4"],
+    &["-b", "5"],
+    &["--benchmark=6"],
     &["-o", "{MISSING}"],
     &["-o", "{DIR}"],
     &["--ordering={MISSING}"],
